@@ -15,6 +15,8 @@ import (
 	"net"
 	"time"
 
+	"github.com/mimecast/dtail/internal/verifrt"
+
 	gossh "golang.org/x/crypto/ssh"
 )
 
@@ -34,6 +36,8 @@ type c14Conn struct {
 	// only when the mux goroutine has seen the end of the connection
 	global   chan *gossh.Request
 	waitDone chan struct{}
+	// how long the SSH handshake of this connection takes (key exchange, authentication)
+	handshake time.Duration
 }
 
 // c14ChanSize is x/crypto/ssh's chanSize: the buffering of the queues of new
@@ -144,6 +148,9 @@ func (c *c14Channel) Stderr() io.ReadWriter { return nil }
 
 func c14NewServerConn(c net.Conn, cfg *gossh.ServerConfig) (*gossh.ServerConn, <-chan gossh.NewChannel, <-chan *gossh.Request, error) {
 	conn := c.(*c14Conn)
+	if conn.handshake > 0 {
+		verifrt.Sleep(conn.handshake)
+	}
 	if conn.kind == 0 {
 		return nil, nil, nil, errors.New("ssh: handshake failed: unable to authenticate")
 	}
